@@ -487,6 +487,15 @@ type ClientSession struct {
 	resourceTemplatesCache methodCache[*ListResourceTemplatesResult]
 	readResourceCache      methodCache[*ReadResourceResult]
 
+	// knownTools holds the most recently listed definition of every tool, for
+	// transport-layer features that need it when the tool is called
+	// (x-mcp-header param annotations). Unlike toolsCache it is not emptied
+	// when a list is re-fetched, expires or is invalidated: a definition that
+	// may be out of date still beats none, without which a legitimate call
+	// is refused.
+	knownToolsMu sync.Mutex
+	knownTools   map[string]*Tool
+
 	// Pending URL elicitations waiting for completion notifications.
 	pendingElicitationsMu sync.Mutex
 	pendingElicitations   map[string]chan struct{}
@@ -591,11 +600,21 @@ func (cs *ClientSession) Wait() error {
 }
 
 // lookupTool returns the most recently seen definition of the tool with the
-// given name across all cached ListTools results, or nil if no such tool has
+// given name across all cached ListTools results and, failing that, the
+// definitions remembered from earlier results, or nil if no such tool has
 // been seen. It is used by CallTool to inject the tool definition into the
 // outgoing request context for transport-layer features (e.g. x-mcp-header
 // param annotations).
 func (cs *ClientSession) lookupTool(name string) *Tool {
+	if t := cs.lookupCachedTool(name); t != nil {
+		return t
+	}
+	cs.knownToolsMu.Lock()
+	defer cs.knownToolsMu.Unlock()
+	return cs.knownTools[name]
+}
+
+func (cs *ClientSession) lookupCachedTool(name string) *Tool {
 	cs.toolsCache.mu.Lock()
 	defer cs.toolsCache.mu.Unlock()
 	for _, entry := range cs.toolsCache.cachedValues {
@@ -606,6 +625,18 @@ func (cs *ClientSession) lookupTool(name string) *Tool {
 		}
 	}
 	return nil
+}
+
+// rememberTools records the definitions of listed tools for lookupTool.
+func (cs *ClientSession) rememberTools(tools []*Tool) {
+	cs.knownToolsMu.Lock()
+	defer cs.knownToolsMu.Unlock()
+	if cs.knownTools == nil {
+		cs.knownTools = make(map[string]*Tool)
+	}
+	for _, t := range tools {
+		cs.knownTools[t.Name] = t
+	}
 }
 
 // registerElicitationWaiter registers a waiter for an elicitation complete
@@ -1277,6 +1308,7 @@ func (cs *ClientSession) ListTools(ctx context.Context, params *ListToolsParams)
 		return nil, err
 	}
 	result.Tools = filterValidTools(cs.client.opts.Logger, result.Tools)
+	cs.rememberTools(result.Tools)
 	if cs.usesNewProtocol() {
 		cs.toolsCache.putIfCurrent(params.Cursor, result, generation)
 	}
